@@ -188,6 +188,35 @@ def h_pump_vs_lost(sched):
     sched.block(lambda: all(not t.alive for t in sched.threads[1:]), ("join-rest",))
 
 
+def h_pump_vs_stop(sched):
+    """H11: two commands are queued; the real poll loop drains them while the application thread calls stop().
+    Whatever stop() does with the queue, the pump survives, each command is written at most once, in order."""
+    log = sched.log
+    gw, transport, conn = make_gateway(log)
+    tasks = gw.tasks
+    tasks.add_job(str, CMD)
+    tasks.add_job(str, CMD2)
+
+    def pump():
+        try:
+            tasks._poll_queue()
+        except Exception as exc:  # pylint: disable=broad-except
+            log.append(("pump-raised", type(exc).__name__, str(exc)[:120], S._site(exc)))
+
+    def stopper():
+        try:
+            tasks.stop()
+        except Exception as exc:  # pylint: disable=broad-except
+            log.append(("event-raised", type(exc).__name__, str(exc)[:120], S._site(exc)))
+
+    tp = sched.spawn(pump, "pump")
+    t2 = sched.spawn(stopper, "event")
+    sched.block(lambda: not t2.alive, ("stopped",))
+    tasks._stop_event.set()
+    sched.block(lambda: not tp.alive, ("join-pump",))
+    sched.block(lambda: all(not t.alive for t in sched.threads[1:]), ("join-rest",))
+
+
 def h_two_sends_first_fails(sched):
     """H7: the first write fails (send closes the link and asks for a reconnect); the reader thread then
     reports the loss without error; a second command follows. A command must never be written to a
@@ -303,6 +332,7 @@ HARNESSES = {
     "H8-tcp-write-vs-disconnect": h_tcp_write_vs_disconnect,
     "H9-tcp-send-buffer-full": lambda sched: h_tcp_write_vs_disconnect(sched, partial=True),
     "H10-pump-vs-lost-error": h_pump_vs_lost,
+    "H11-pump-vs-stop": h_pump_vs_stop,
 }
 
 
@@ -379,9 +409,9 @@ def judge(hname, sched):
         if len(mine) > 1:
             out.append(("command-written-twice", "", f"command written {len(mine)} times: {mine}"))
         for e in writes:
-            if e[2] not in ((CMD.encode(), CMD2.encode()) if hname.startswith("H10") else (CMD.encode(),)):
+            if e[2] not in ((CMD.encode(), CMD2.encode()) if hname.startswith(("H10", "H11")) else (CMD.encode(),)):
                 out.append(("partial-or-foreign-write", "", f"unexpected write {e}"))
-        if hname.startswith("H10"):
+        if hname.startswith(("H10", "H11")):
             two = [e for e in writes if e[2] == CMD2.encode()]
             if len(two) > 1:
                 out.append(("command-written-twice", "", f"command written {len(two)} times: {two}"))
@@ -441,7 +471,7 @@ def _merge(dst, src):
             dst["found"][sig] = val
 
 
-BOUNDS = {"quick": {"default": 2, "H5-producers-vs-pump": 1, "H8-tcp-write-vs-disconnect": 2, "H9-tcp-send-buffer-full": 1, "H10-pump-vs-lost-error": 1}, "thorough": {"default": 3, "H5-producers-vs-pump": 2, "H8-tcp-write-vs-disconnect": 3, "H9-tcp-send-buffer-full": 2, "H10-pump-vs-lost-error": 2}}
+BOUNDS = {"quick": {"default": 2, "H5-producers-vs-pump": 1, "H8-tcp-write-vs-disconnect": 2, "H9-tcp-send-buffer-full": 1, "H10-pump-vs-lost-error": 1, "H11-pump-vs-stop": 1}, "thorough": {"default": 3, "H5-producers-vs-pump": 2, "H8-tcp-write-vs-disconnect": 3, "H9-tcp-send-buffer-full": 2, "H10-pump-vs-lost-error": 2, "H11-pump-vs-stop": 2}}
 
 
 def run(tier):
